@@ -37,7 +37,20 @@ def drivers(tier):
             shapes=((), ('H',), ('HZ',), ('H', 'HZ'), ('HZ', 'H')),
             coarse=False),
             dict(max_states=250000, time_budget=240))
+        # a one-shot handler that detaches itself from inside its on_add
+        d['one-shot'] = (WorldDriver(
+            'one-shot', own='L', types=('H', 'HS'), ids=(1,),
+            explicit_ids=(1,), max_autos=1, toggles=True, max_postponed=2,
+            shapes=((), ('H',), ('HS',), ('H', 'HS'), ('HS', 'H')),
+            coarse=False),
+            dict(max_states=250000, time_budget=240))
     else:
+        d['one-shot'] = (WorldDriver(
+            'one-shot', own='L', types=('H', 'HS', 'P'), ids=(1, 2),
+            explicit_ids=(1,), max_autos=1, toggles=True, max_postponed=2,
+            shapes=((), ('H',), ('HS',), ('H', 'HS'), ('HS', 'H')),
+            coarse=False),
+            dict(max_states=600000, time_budget=1200))
         d['callback-disables'] = (WorldDriver(
             'callback-disables', own='L', types=('H', 'HZ', 'P'), ids=(1, 2),
             explicit_ids=(1,), max_autos=1, toggles=True, max_postponed=2,
@@ -221,6 +234,7 @@ def run(tier, rep):
         'the harness keeps every component alive (C10 covers the weak side)',
     ]
     rep.require_hits(callback_disables_dispatching=1,
+                     one_shot_removes_itself=1,
                      replace_same_type=1, postponed=1, release_postponed=1,
                      clear=1, process_with_pending=1)
     for name, (driver, kw) in drivers(tier).items():
